@@ -197,13 +197,13 @@ def alphabet(tier):
             [C("Multistage", (2, 2, "maximum"), 12), C("Multistage", (3, 1, "maximum"), 12),
              C("Multistage", (1, 3, "revolve"), 12), C("Multistage", (2, 2, "maximum"), 14)],
             [C("Mixed", (3, "RAM"), 12), C("Mixed", (4, "DISK"), 12), C("Mixed", (3, "RAM"), 14)],
-            [C("HRevolve", (2, 1) + dflt, 10), C("HRevolve", (1, 2, 1, 2, 0.5, 0.25), 10)],
+            [C("HRevolve", (2, 1) + dflt, 8), C("HRevolve", (1, 2, 1, 2, 0.5, 0.25), 8)],
             [C("Revolve", (2,) + dflt, 7), C("Revolve", (2, 1, 3, 2, 2), 7), C("DiskRevolve", (2,) + dflt, 7),
              C("PeriodicDiskRevolve", (2,) + dflt, 8), C("DiskRevolve", (1,) + dflt, 8)],
-            [C("Revolve", (3,) + dflt, 10), C("Revolve", (2, 2, 1, 2, 2), 10),
-             C("DiskRevolve", (3,) + dflt, 10)],
-            [C("PeriodicDiskRevolve", (2, 1, 1, 1, 1), 12), C("PeriodicDiskRevolve", (2,) + dflt, 12)],
-            [C("DiskRevolve", (2, 1, 1, 1, 1), 11), C("DiskRevolve", (1, 2, 1, 2, 2), 11)],
+            [C("Revolve", (3,) + dflt, 8), C("Revolve", (2, 2, 1, 2, 2), 8),
+             C("DiskRevolve", (3,) + dflt, 8)],
+            [C("PeriodicDiskRevolve", (2, 1, 1, 1, 1), 9), C("PeriodicDiskRevolve", (2,) + dflt, 9)],
+            [C("DiskRevolve", (2, 1, 1, 1, 1), 8), C("DiskRevolve", (1, 2, 1, 2, 2), 8)],
             [C("TwoLevel", (5, 2, "RAM", "revolve"), 11), C("TwoLevel", (5, 3, "RAM", "revolve"), 11)],
         ]
     return groups
@@ -220,9 +220,9 @@ def tasks(tier):
     for gi, g in enumerate(alphabet(tier)):
         for vi in range(len(g)):
             out.append(("abort", gi, vi, list(range(len(g)))))
-            if vi == 0 or tier == "thorough":
+            if vi == 0 or (tier == "thorough" and vi < 2):
                 out.append(("raise", gi, vi, list(range(len(g)))))
-            if vi == 0 and tier == "thorough":
+            if vi == 0 and tier == "thorough" and gi < 8:
                 out.append(("raise_mem", gi, vi, list(range(len(g)))))
             if tier != "thorough" and vi >= 2:
                 continue
